@@ -818,12 +818,33 @@ C09_SCOPES_PART = (G, "gosym_part", dict(name="c09_scopes", entry="internal/zzve
                                     "imported generic, map key, computed-field conversion target) x host definition {not generic, generic with other parameters, declares the name "
                                     "itself} x {main, imported namespace}: rejected naming the file, unless the host declares the name (then accepted)"))
 
+C08_REF_RETURNS_PART = (G, "gosym_part", dict(name="c08_cpp_reference_returns", entry="internal/zzverif.C08CppReferenceReturns", args_quick=(2, 2), args_thorough=(3, 6),
+                               extra_thorough=("-max-paths", "400000"),
+                               required_sites=("well-typed-reference-path-is-accepted", "struct-has-one-member-per-field-and-one-const-accessor-per-computed-field",
+                                               "reference-return-is-a-known-expression-form", "reference-return-denotes-an-object-that-lives-as-long-as-this",
+                                               "reference-return-binds-an-object-of-the-declared-type", "mutable-overload-delegates-to-a-reference-returning-const-accessor"),
+                               assumptions=["emitted types.h of the namespace read back (zz_c08_refreturn.go): structs with data members, const accessors (declared return type, body), non-const overloads, "
+                                            "`using` aliases; returned expressions read by the C++ expression reader of zz_c08_cppexpr.go / zz_c08_switch.go",
+                                            "C++ meaning given to the forms: a data member of *this / of an object is part of that object; an accessor call yields a reference into the object it is applied to "
+                                            "iff the accessor is DECLARED `T const&` (each accessor is subject to the same obligation, computed fields are acyclic), else a temporary; std::vector / std::array / "
+                                            "std::unordered_map `.at`, `[]` and yardl::at(array, idx...) (`T const& at(Array const&, ...)` in yardl/detail/ndarray/impl.h) return a reference into their "
+                                            "target; operators, std::pow, static_cast, literals, size(), yardl::size/shape/dimension and lambda calls / std::visit returning by value yield temporaries",
+                                            "records Leaf / Inner / Outer (fields of a symbolic primitive P, vector, fixed vector, map, fixed / non-fixed / dynamic array, vector of records, record through an "
+                                            "alias; helper computed fields: plain field, arithmetic, record / vector / map / array COPY via a single-case !switch, record / vector field, nested field, "
+                                            "nested reference-returning computed field); Outer.c = a type-directed reference path of <= 2 (3) steps `.member` / `[index]` from any field or computed field, "
+                                            "or the path wrapped in + 1, unary minus, `as float64`, a !switch case, size(), or a literal; P over 2 (6) primitives"],
+                               desc="for every computed field whose emitted C++ accessor is DECLARED to return a reference (`T const&`, with its `T&` overload), the returned expression - read back from the "
+                                    "emitted text through the real dsl.Validate and the real cpp/types generator - denotes an object that lives as long as *this and has the declared type (a field, a "
+                                    "member path of such objects, a reference-returning accessor applied to such an object, an element of such a container), never a temporary (by-value accessor call, "
+                                    "arithmetic, conversion, lambda call) or a part of one; the non-const overload delegates to a reference-returning const accessor"))
+
 PARTS = {
     "C08": [
         C08_RESERVED_PART,   # identifiers derived from model names are never C++ / Python reserved words
         C08_INJECTIVE_PART,   # ... and distinct names stay distinct (known finding c08:identifier-mapping-not-injective)
         C08_SWITCH_PART,   # emitted !switch expressions declare what they use (C++ captures included) and denote the source switch
         C08_NO_SHADOW_PART,   # no emitted declaration hides a parameter / enclosing local; operator== is not confused by a field named like its parameter
+        C08_REF_RETURNS_PART,   # a C++ computed-field accessor declared to return a reference never returns a temporary (or a part of one)
         C04_CPP_LABELS_PART,   # version labels become distinct, keyword-free C++ enumerators
         C08_EXPR_PART,   # emitted C++ / Python / MATLAB computed-field expressions are complete, side-effect-free expressions of their language
         C13_IMPORTED_GENERICS,   # definitions come out dependencies-first (also through type arguments of imported generics): generated Python modules import, C++ declares before use
@@ -907,6 +928,7 @@ PARTS = {
     ],
     "C19": [
         C08_SWITCH_PART,   # a !switch means the same in C++, Python and MATLAB: each case returns its own expression
+        C08_REF_RETURNS_PART,   # the C++ accessor of a computed field yields the field's value, not a dangling reference to a temporary
         (PYG, "c19_py_computed", dict()),
         C08_EXPR_PART,   # the C++, Python and MATLAB texts of a computed field denote the tree of the source expression
         (G, "gosym_part", dict(name="c19_static_types", entry="internal/zzverif.C19Types",
@@ -1044,6 +1066,7 @@ PARTS = {
         C01_CPP_PROTO_READER,
         C05_BULK_BYPASS,   # wire-format conformance of vectors / arrays / stream batches of records when the writer targets (the reader reads) a previous version
         (CC, "c17_cc_reuse", dict()),   # the value read is the value written, whatever the destination object held before (vectors, maps, blocks)
+        (CC, "c17_cc_blocks", dict()),   # the block layer of stream steps: ReadBlock / ReadBlocksIntoVector deliver the items written and leave (position, current_block_remaining_) in the state the generated reader's end-of-stream test (c01_cpp_proto_reader) relies on
     ],
     "C03": [
         C02_CPP_RECORD_PART,   # a record is a JSON object in every backend (Python refuses null where C++ would write it)
